@@ -147,8 +147,9 @@ Print Assumptions alternative_contained_and_not_consuming_refuted.
 (* ---- the chains: which transformers, in which order; ChainTransformer reports a change iff one of them does ---- *)
 
 Theorem source_simplify_chains :
+  src_chain_flag = AnyChanged /\
   (forall e, csimplify e = run_chain cpass src_comp_simplify e) /\ (forall e, osimplify e = run_chain opass src_obs_simplify e).
-Proof. split; [exact csimplify_chain | exact osimplify_chain]. Qed.
+Proof. split; [reflexivity | split; [exact csimplify_chain | exact osimplify_chain]]. Qed.
 Print Assumptions source_simplify_chains.
 
 (* cnormalize = special values; settle; DNF; settle -- onormalize = comparison expressions; settle; DNF; settle
